@@ -34,6 +34,9 @@ def seeded_table():
         needs = (j.get("needs") or "").replace("\n", " ").replace("|", "/")
         if len(needs) > 260:
             needs = needs[:257] + "…"
+        note = note.replace("\n", " ")
+        if len(note) > 700:
+            note = note[:697] + "… (full text: meta.json)"
         fs = j.get("final_sweep") or {}
         if fs.get("error"):
             final = fs["error"]
